@@ -6,6 +6,8 @@ package scm
 
 import (
 	"fmt"
+	"os"
+	"path/filepath"
 	"runtime"
 	"strings"
 	"sync/atomic"
@@ -202,6 +204,16 @@ func Compile(mods []Stmt, features []string, filter Filter) (res Result) {
 	return CompileWith(mods, features, flt)
 }
 
+// CompileFrom is Compile with a feature source.
+func CompileFrom(mods []Stmt, src Src, filter Filter) (res Result) {
+	flt, err := filter.Build()
+	if err != nil {
+		res.Stage, res.Err = "harness", err.Error()
+		return
+	}
+	return CompileSrc(mods, src, flt)
+}
+
 // Yielding replaces the three basic predicates of a filter expression by their yielding twins.
 func (f Filter) Yielding() Filter {
 	out := Filter{Op: f.Op, B: f.B}
@@ -215,9 +227,151 @@ func (f Filter) Yielding() Filter {
 	return out
 }
 
+// Src is a feature source of spec/YangSchema.tla (SrcStatus): where the set of enabled features comes from.
+//
+//	nil     no checker
+//	names   compile.FeaturesFromNames(B, Xs...)
+//	table   a FeaturesChecker of the caller: Enabled for Xs, Disabled for Ys, NotPresent otherwise
+//	dirs    compile.FeaturesFromLocations(true, loc1[, loc2]) with a file loc1/<module>/<feature> for Xs, loc2/... for Ys
+//	multi   compile.MultiFeatureCheckers(Ms...)
+//	config  compile.Config{CapsLocation: directory with files for Xs, Features: Ms[0]} compiled with compile.CompileDir
+//
+// Feature ids are [module, feature] pairs.
+type Src struct {
+	Op string     `json:"op"`
+	B  bool       `json:"b"`
+	Xs [][]string `json:"xs"`
+	Ys [][]string `json:"ys"`
+	Ms []Src      `json:"ms"`
+}
+
+// NamesSrc is the plain source: exactly the named "module:feature" features are enabled.
+func NamesSrc(features []string) Src {
+	s := Src{Op: "names", B: true}
+	for _, f := range features {
+		if i := strings.Index(f, ":"); i > 0 {
+			s.Xs = append(s.Xs, []string{f[:i], f[i+1:]})
+		}
+	}
+	return s
+}
+
+// Norm makes every list an empty array instead of null (the TLA+ JSON reader rejects null).
+func (s Src) Norm() Src {
+	out := Src{Op: s.Op, B: s.B, Xs: [][]string{}, Ys: [][]string{}, Ms: []Src{}}
+	out.Xs = append(out.Xs, s.Xs...)
+	out.Ys = append(out.Ys, s.Ys...)
+	for _, m := range s.Ms {
+		out.Ms = append(out.Ms, m.Norm())
+	}
+	return out
+}
+
+func names(ids [][]string) []string {
+	out := []string{}
+	for _, id := range ids {
+		if len(id) == 2 {
+			out = append(out, id[0]+":"+id[1])
+		}
+	}
+	return out
+}
+
+// tableChecker is a FeaturesChecker supplied by the caller of the library.
+type tableChecker map[string]compile.FeatureStatus
+
+func (t tableChecker) Status(feature string) compile.FeatureStatus {
+	if s, ok := t[feature]; ok {
+		return s
+	}
+	return compile.NOTPRESENT
+}
+
+// capsDir writes a capability directory (one empty file <dir>/<module>/<feature> per id) below tmp.
+func capsDir(tmp *string, ids [][]string) (string, error) {
+	if *tmp == "" {
+		d, err := os.MkdirTemp(".", "featsrc")
+		if err != nil {
+			return "", err
+		}
+		*tmp = d
+	}
+	dir, err := os.MkdirTemp(*tmp, "caps")
+	if err != nil {
+		return "", err
+	}
+	for _, id := range ids {
+		if len(id) != 2 {
+			continue
+		}
+		if err := os.MkdirAll(filepath.Join(dir, id[0]), 0o755); err != nil {
+			return "", err
+		}
+		if err := os.WriteFile(filepath.Join(dir, id[0], id[1]), nil, 0o644); err != nil {
+			return "", err
+		}
+	}
+	return dir, nil
+}
+
+// checker builds the FeaturesChecker of a source (nil for "nil"); directories are created below *tmp.
+func (s Src) checker(tmp *string) (compile.FeaturesChecker, error) {
+	switch s.Op {
+	case "nil":
+		return nil, nil
+	case "names", "":
+		return compile.FeaturesFromNames(s.B, names(s.Xs)...), nil
+	case "table":
+		t := tableChecker{}
+		for _, n := range names(s.Xs) {
+			t[n] = compile.ENABLED
+		}
+		for _, n := range names(s.Ys) {
+			t[n] = compile.DISABLED
+		}
+		return t, nil
+	case "dirs":
+		l1, err := capsDir(tmp, s.Xs)
+		if err != nil {
+			return nil, err
+		}
+		if len(s.Ys) == 0 {
+			return compile.FeaturesFromLocations(true, l1), nil
+		}
+		l2, err := capsDir(tmp, s.Ys)
+		if err != nil {
+			return nil, err
+		}
+		return compile.FeaturesFromLocations(true, l1, l2), nil
+	case "multi":
+		var ms []compile.FeaturesChecker
+		for _, m := range s.Ms {
+			c, err := m.checker(tmp)
+			if err != nil {
+				return nil, err
+			}
+			ms = append(ms, c)
+		}
+		return compile.MultiFeatureCheckers(ms...), nil
+	}
+	return nil, fmt.Errorf("feature source %q cannot be a member of another", s.Op)
+}
+
 // CompileWith is Compile with a filter value the caller built (and may share between compilations).
 func CompileWith(mods []Stmt, features []string, flt compile.SchemaFilter) (res Result) {
+	return CompileSrc(mods, NamesSrc(features), flt)
+}
+
+// CompileSrc compiles a module set with the enabled features coming from src: through compile.CompileParseTrees with
+// the checker of the source, or - for a "config" source - from files through compile.CompileDir with a compile.Config.
+func CompileSrc(mods []Stmt, src Src, flt compile.SchemaFilter) (res Result) {
 	var err error
+	tmp := ""
+	defer func() {
+		if tmp != "" {
+			os.RemoveAll(tmp)
+		}
+	}()
 	trees := map[string]*parse.Tree{}
 	for _, m := range mods {
 		text := Render(m)
@@ -233,6 +387,50 @@ func CompileWith(mods []Stmt, features []string, flt compile.SchemaFilter) (res 
 		}
 		trees[name] = t
 	}
+	var run func() (schema.ModelSet, error)
+	if src.Op == "config" {
+		if len(src.Ms) != 1 {
+			res.Stage, res.Err = "harness", "config source needs exactly one Features member"
+			return
+		}
+		feat, err := src.Ms[0].checker(&tmp)
+		if err != nil {
+			res.Stage, res.Err = "harness", err.Error()
+			return
+		}
+		caps, err := capsDir(&tmp, src.Xs)
+		if err != nil {
+			res.Stage, res.Err = "harness", err.Error()
+			return
+		}
+		ydir, err := os.MkdirTemp(tmp, "yang")
+		if err != nil {
+			res.Stage, res.Err = "harness", err.Error()
+			return
+		}
+		for i, m := range mods {
+			name := fmt.Sprintf("m%d", i)
+			if len(m.Arg) > 0 {
+				name = m.Arg[0]
+			}
+			if err := os.WriteFile(filepath.Join(ydir, name+".yang"), []byte(res.Texts[i]), 0o644); err != nil {
+				res.Stage, res.Err = "harness", err.Error()
+				return
+			}
+		}
+		cfg := &compile.Config{YangDir: ydir, CapsLocation: caps, Filter: flt}
+		if feat != nil {
+			cfg.Features = feat
+		}
+		run = func() (schema.ModelSet, error) { return compile.CompileDir(nil, cfg) }
+	} else {
+		chk, err := src.checker(&tmp)
+		if err != nil {
+			res.Stage, res.Err = "harness", err.Error()
+			return
+		}
+		run = func() (schema.ModelSet, error) { return compile.CompileParseTrees(nil, trees, chk, false, flt) }
+	}
 	var ms schema.ModelSet
 	func() {
 		defer func() {
@@ -241,7 +439,7 @@ func CompileWith(mods []Stmt, features []string, flt compile.SchemaFilter) (res 
 				err = fmt.Errorf("panic: %v", r)
 			}
 		}()
-		ms, err = compile.CompileParseTrees(nil, trees, compile.FeaturesFromNames(true, features...), false, flt)
+		ms, err = run()
 	}()
 	if err != nil {
 		res.Stage, res.Err = "compile", err.Error()
